@@ -411,6 +411,7 @@ BUILDERS = {
     "c_dateutils_daysinmonth": lambda P, B, D, e: ("daysinmonth", [], [P["month"]]),
     "c_dateutils_dayofyear": lambda P, B, D, e: ("dayofyear", [], [P["month"], P["day"]]),
     "c_combi": lambda P, B, D, e: ("combi", [], [P["n"], P["k"]]),
+    "c_dateutils_isleapyear": lambda P, B, D, e: ("isleapyear", [], [P["year"]]),
     "c_armodel_sim": _armodel_sim, "c_armodel_residual": _armodel_res, "c_crps": _crps, "c_ensrank": _ensrank,
     "c_ad_test": _adtest, "c_paretofront": _pareto, "c_olsleverage": _ols,
     "c_coord2cell": _coord2cell, "c_cell2rowcol": _cell2rowcol, "c_cell2coord": _cell2coord,
@@ -421,7 +422,7 @@ BUILDERS = {
 }
 
 # kernels reachable from the API without footprint model (covered by the sanitizer oracle only)
-NO_MODEL = ["c_dateutils_isleapyear"]
+NO_MODEL = []
 
 
 # ---------------------------------------------------------------------------------------------
